@@ -75,7 +75,7 @@ class Result:
 
 def known_match(pid, v, findings):
     for f in findings:
-        if f.get("property") == pid and f.get("key") == v["key"]:
+        if f.get("property") == pid and (f.get("key") == v["key"] or v["key"] in f.get("keys", [])):
             return f
     return None
 
@@ -131,7 +131,7 @@ def main():
     # a listed finding that no longer reproduces is worth a note (not an alarm)
     seen = {v["key"] for v in res.violations}
     for f in findings:
-        if f.get("property") == pid and f.get("key") not in seen and f.get("expect_every_run", True) and tier in f.get("tiers", ["quick", "thorough"]):
+        if f.get("property") == pid and f.get("key") not in seen and not (set(f.get("keys", [])) & seen) and f.get("expect_every_run", True) and tier in f.get("tiers", ["quick", "thorough"]):
             print(f"NOTE: known finding not reproduced on this run: {f.get('key')}")
 
     n_obl = len(res.obligations)
